@@ -109,6 +109,9 @@ func genMulti(c *Case, r *simrt.Rand, tier string) {
 			default:
 				prog = append(prog, Op{Kind: "pause", N: 1 + r.Intn(20)})
 			}
+			if c.Opts.MergerIdleRunTimeoutMS > 0 && r.Chance(0.3) {
+				prog = append(prog, Op{Kind: "clock", N: int(c.Opts.MergerIdleRunTimeoutMS) + r.Intn(3)})
+			}
 		}
 		c.Drivers = append(c.Drivers, prog)
 	}
@@ -473,6 +476,9 @@ func (e *Exec) driver(id int, prog []Op) {
 			e.callEnd(id)
 		case "pause":
 			simrt.Quiesce(int64(op.N), 0)
+		case "clock":
+			// time passes while everybody is busy (the idle waker's nap ends)
+			simrt.AdvanceClock(msDur(op.N))
 		case "readSnap":
 			e.readSnap(id)
 		case "getMarkers":
